@@ -5,10 +5,15 @@
 #ifndef CONTRACTS_LWE_H
 #define CONTRACTS_LWE_H
 extern int32_t g_k;
+/* the watched coordinate; a harness that handles samples of two dimensions may select the ghost by dimension */
+#ifndef LWE_GK
+#define LWE_GK(params_) g_k
+#endif
 
 #define LWE_PARAMS_OK(p) (__CPROVER_is_fresh(p, sizeof(LweParams)) && (p)->n >= 1 && (p)->n <= VERIF_NMAX)
 #define LWE_SAMPLE_OK(s, n_) (__CPROVER_is_fresh(s, sizeof(LweSample)) && __CPROVER_is_fresh((s)->a, (size_t)(n_) * sizeof(Torus32)))
-#define LWE_GHOST_OK(n_) (0 <= g_k && g_k < (n_))
+#define LWE_GHOST_OK(n_) (0 <= GKP && GKP < (n_))
+#define GKP LWE_GK(params)
 #define VAR_OK(v) ((v) >= 0.0 && (v) <= 1e300)
 #define LWE_FRAME(r) __CPROVER_assigns(__CPROVER_object_whole((r)->a), (r)->b, (r)->current_variance)
 /* proof slicing knobs: one contract, discharged in two runs (SAT decides the IEEE variance clause, cvc5 the
@@ -33,14 +38,14 @@ extern int32_t g_k;
 #define LWE_LOOP(i, n_, arr, done_val) \
     __CPROVER_assigns(i, __CPROVER_object_whole(arr)) \
     __CPROVER_loop_invariant(0 <= i && i <= (n_)) \
-    COORD_INV((arr)[g_k] == ((i) > g_k ? T32(done_val) : LENTRY((arr)[g_k]))) \
+    COORD_INV((arr)[GKP] == ((i) > GKP ? T32(done_val) : LENTRY((arr)[GKP]))) \
     __CPROVER_decreases((n_) - i)
 
 /* ---- lweClear: result = (0,0) */
 #define CONTRACT_lweClear \
     __CPROVER_requires(LWE_PARAMS_OK(params) && LWE_SAMPLE_OK(result, params->n) && LWE_GHOST_OK(params->n)) \
     LWE_FRAME(result) \
-    __CPROVER_ensures(result->a[g_k] == 0 && result->b == 0 && result->current_variance == 0.0)
+    __CPROVER_ensures(result->a[GKP] == 0 && result->b == 0 && result->current_variance == 0.0)
 #define LOOP_lweClear_0(i) LWE_LOOP(i, params->n, result->a, 0)
 
 /* ---- lweCopy: result = sample */
@@ -48,23 +53,23 @@ extern int32_t g_k;
     __CPROVER_requires(LWE_PARAMS_OK(params) && LWE_SAMPLE_OK(result, params->n) && LWE_SAMPLE_OK(sample, params->n) && LWE_GHOST_OK(params->n)) \
     __CPROVER_requires(VAR_OK(sample->current_variance)) \
     LWE_FRAME(result) \
-    __CPROVER_ensures(result->a[g_k] == sample->a[g_k] && result->b == sample->b && result->current_variance == sample->current_variance)
-#define LOOP_lweCopy_0(i) LWE_LOOP(i, params->n, result->a, sample->a[g_k])
+    __CPROVER_ensures(result->a[GKP] == sample->a[GKP] && result->b == sample->b && result->current_variance == sample->current_variance)
+#define LOOP_lweCopy_0(i) LWE_LOOP(i, params->n, result->a, sample->a[GKP])
 
 /* ---- lweNegate: result = -sample */
 #define CONTRACT_lweNegate \
     __CPROVER_requires(LWE_PARAMS_OK(params) && LWE_SAMPLE_OK(result, params->n) && LWE_SAMPLE_OK(sample, params->n) && LWE_GHOST_OK(params->n)) \
     __CPROVER_requires(VAR_OK(sample->current_variance)) \
     LWE_FRAME(result) \
-    __CPROVER_ensures(result->a[g_k] == T32(0u - U32(sample->a[g_k])) && result->b == T32(0u - U32(sample->b))) \
+    __CPROVER_ensures(result->a[GKP] == T32(0u - U32(sample->a[GKP])) && result->b == T32(0u - U32(sample->b))) \
     __CPROVER_ensures(result->current_variance == sample->current_variance)
-#define LOOP_lweNegate_0(i) LWE_LOOP(i, params->n, result->a, 0u - U32(sample->a[g_k]))
+#define LOOP_lweNegate_0(i) LWE_LOOP(i, params->n, result->a, 0u - U32(sample->a[GKP]))
 
 /* ---- lweNoiselessTrivial: result = (0,mu) */
 #define CONTRACT_lweNoiselessTrivial \
     __CPROVER_requires(LWE_PARAMS_OK(params) && LWE_SAMPLE_OK(result, params->n) && LWE_GHOST_OK(params->n)) \
     LWE_FRAME(result) \
-    __CPROVER_ensures(result->a[g_k] == 0 && result->b == mu && result->current_variance == 0.0)
+    __CPROVER_ensures(result->a[GKP] == 0 && result->b == mu && result->current_variance == 0.0)
 #define LOOP_lweNoiselessTrivial_0(i) LWE_LOOP(i, params->n, result->a, 0)
 
 /* ---- lweAddTo: result += sample */
@@ -72,20 +77,20 @@ extern int32_t g_k;
     __CPROVER_requires(LWE_PARAMS_OK(params) && LWE_SAMPLE_OK(result, params->n) && LWE_SAMPLE_OK(sample, params->n) && LWE_GHOST_OK(params->n)) \
     __CPROVER_requires(VAR_OK(sample->current_variance) && VAR_OK(result->current_variance)) \
     LWE_FRAME(result) \
-    __CPROVER_ensures(result->a[g_k] == T32(U32(OLD(result->a[g_k])) + U32(sample->a[g_k]))) \
+    __CPROVER_ensures(result->a[GKP] == T32(U32(OLD(result->a[GKP])) + U32(sample->a[GKP]))) \
     __CPROVER_ensures(result->b == T32(U32(OLD(result->b)) + U32(sample->b))) \
     __CPROVER_ensures(result->current_variance == OLD(result->current_variance) + sample->current_variance)
-#define LOOP_lweAddTo_0(i) LWE_LOOP(i, params->n, result->a, U32(LENTRY(result->a[g_k])) + U32(sample->a[g_k]))
+#define LOOP_lweAddTo_0(i) LWE_LOOP(i, params->n, result->a, U32(LENTRY(result->a[GKP])) + U32(sample->a[GKP]))
 
 /* ---- lweSubTo: result -= sample (scalar branch; the AVX2 inline-assembly branch is not seen) */
 #define CONTRACT_lweSubTo \
     __CPROVER_requires(LWE_PARAMS_OK(params) && LWE_SAMPLE_OK(result, params->n) && LWE_SAMPLE_OK(sample, params->n) && LWE_GHOST_OK(params->n)) \
     __CPROVER_requires(VAR_OK(sample->current_variance) && VAR_OK(result->current_variance)) \
     LWE_FRAME(result) \
-    __CPROVER_ensures(result->a[g_k] == T32(U32(OLD(result->a[g_k])) - U32(sample->a[g_k]))) \
+    __CPROVER_ensures(result->a[GKP] == T32(U32(OLD(result->a[GKP])) - U32(sample->a[GKP]))) \
     __CPROVER_ensures(result->b == T32(U32(OLD(result->b)) - U32(sample->b))) \
     __CPROVER_ensures(result->current_variance == OLD(result->current_variance) + sample->current_variance)
-#define LOOP_lweSubTo_0(i) LWE_LOOP(i, params->n, result->a, U32(LENTRY(result->a[g_k])) - U32(sample->a[g_k]))
+#define LOOP_lweSubTo_0(i) LWE_LOOP(i, params->n, result->a, U32(LENTRY(result->a[GKP])) - U32(sample->a[GKP]))
 
 /* ---- lweAddMulTo: result += p*sample ; variance annotation var1 + p^2*var2 for |p| < 2^15 */
 #ifdef VERIF_PCONST
@@ -98,18 +103,18 @@ extern int32_t g_k;
     __CPROVER_requires(LWE_PARAMS_OK(params) && LWE_SAMPLE_OK(result, params->n) && LWE_SAMPLE_OK(sample, params->n) && LWE_GHOST_OK(params->n)) \
     __CPROVER_requires(VAR_OK(sample->current_variance) && VAR_OK(result->current_variance) && P_INSTANCE(p)) \
     LWE_FRAME(result) \
-    COORD_ENSURES(result->a[g_k] == (Torus32)(OLD(result->a[g_k]) + p * sample->a[g_k])) \
+    COORD_ENSURES(result->a[GKP] == (Torus32)(OLD(result->a[GKP]) + p * sample->a[GKP])) \
     COORD_ENSURES(result->b == (Torus32)(OLD(result->b) + p * sample->b)) \
     VAR_ENSURES(P_SMALL(p) ==> result->current_variance == OLD(result->current_variance) + (double)(p * p) * OLD(sample->current_variance))
-#define LOOP_lweAddMulTo_0(i) LWE_LOOP(i, params->n, result->a, LENTRY(result->a[g_k]) + p * sample->a[g_k])
+#define LOOP_lweAddMulTo_0(i) LWE_LOOP(i, params->n, result->a, LENTRY(result->a[GKP]) + p * sample->a[GKP])
 
 #define CONTRACT_lweSubMulTo \
     __CPROVER_requires(LWE_PARAMS_OK(params) && LWE_SAMPLE_OK(result, params->n) && LWE_SAMPLE_OK(sample, params->n) && LWE_GHOST_OK(params->n)) \
     __CPROVER_requires(VAR_OK(sample->current_variance) && VAR_OK(result->current_variance) && P_INSTANCE(p)) \
     LWE_FRAME(result) \
-    COORD_ENSURES(result->a[g_k] == T32(U32(OLD(result->a[g_k])) - U32(p) * U32(sample->a[g_k]))) \
+    COORD_ENSURES(result->a[GKP] == T32(U32(OLD(result->a[GKP])) - U32(p) * U32(sample->a[GKP]))) \
     COORD_ENSURES(result->b == T32(U32(OLD(result->b)) - U32(p) * U32(sample->b))) \
     VAR_ENSURES(P_SMALL(p) ==> result->current_variance == OLD(result->current_variance) + (double)(p * p) * OLD(sample->current_variance))
-#define LOOP_lweSubMulTo_0(i) LWE_LOOP(i, params->n, result->a, U32(LENTRY(result->a[g_k])) - U32(p) * U32(sample->a[g_k]))
+#define LOOP_lweSubMulTo_0(i) LWE_LOOP(i, params->n, result->a, U32(LENTRY(result->a[GKP])) - U32(p) * U32(sample->a[GKP]))
 
 #endif
